@@ -72,6 +72,12 @@ class Check(PropCheck):
             nm = list(names); rng.shuffle(nm)
             cases.append(self.mat_case('e%d' % k, nm, D)); k += 1
         self.stats['small_integer_matrices'] = k
+        # constant matrices, deterministically (all taxa identical / all equidistant): every minimum is a tie, retired cells must never win
+        for n in (2, 3, 4, 5, 6, 7):
+            for c in (0, 1, 3, Fraction(10) ** 300):
+                names = gen.default_names(n)
+                D = {frozenset(p): Fraction(c) for p in itertools.combinations(names, 2)}
+                cases.append(self.mat_case('const%d_%d' % (n, min(int(c), 9)), names, D))
         # all-equal matrix: the known rounding-level finding (KF4)
         for n in (4, 5):
             names = gen.default_names(n)
